@@ -144,6 +144,54 @@ func projFieldValue(v interface{}) V {
 	return L(I(99))
 }
 
+// heldExtraction keeps what ExtractFields returned (strict and lenient) without looking at the
+// values; they are projected later, after other extractions have run (a returned string must stay
+// what it was)
+type heldExtraction struct {
+	head         []V
+	noResp       bool
+	sv, lv       []modbus.FieldValue
+	se, le       error
+	sPanic, lPan bool
+}
+
+func (h *heldExtraction) run(q modbus.BuilderRequest, resp packet.Response) {
+	func() {
+		defer func() {
+			if recover() != nil {
+				h.sPanic = true
+			}
+		}()
+		h.sv, h.se = q.ExtractFields(resp, false)
+	}()
+	func() {
+		defer func() {
+			if recover() != nil {
+				h.lPan = true
+			}
+		}()
+		h.lv, h.le = q.ExtractFields(resp, true)
+	}()
+}
+func (h *heldExtraction) strict(fields []modbus.Field) V {
+	switch {
+	case h.noResp:
+		return L(I(4))
+	case h.sPanic:
+		return vPanic()
+	}
+	return projExtraction(fields, h.sv, h.se)
+}
+func (h *heldExtraction) lenient(fields []modbus.Field) V {
+	switch {
+	case h.noResp:
+		return L(I(4))
+	case h.lPan:
+		return vPanic()
+	}
+	return projExtraction(fields, h.lv, h.le)
+}
+
 func projExtraction(fields []modbus.Field, vals []modbus.FieldValue, err error) V {
 	if err != nil && vals == nil {
 		return L(I(1))
@@ -181,6 +229,7 @@ func extractCase(r *rng, target int, fields []modbus.Field, fluent bool, ms uint
 			which = r.intn(len(reqs))
 		}
 		descs := make([]V, 0, len(reqs))
+		held := make([]heldExtraction, 0, len(reqs))
 		for i, q := range reqs {
 			tid, _ := projReq(q.Request)
 			tids = append(tids, I(tid))
@@ -207,21 +256,15 @@ func extractCase(r *rng, target int, fields []modbus.Field, fluent bool, ms uint
 			} else {
 				resp, perr = packet.ParseRTUResponseWithCRC(reply)
 			}
-			var strict, lenient V
-			if perr != nil {
-				strict, lenient = L(I(4)), L(I(4))
-			} else {
-				qcopy := q
-				strict = guard(func() V {
-					vals, e := qcopy.ExtractFields(resp, false)
-					return projExtraction(fields, vals, e)
-				})
-				lenient = guard(func() V {
-					vals, e := qcopy.ExtractFields(resp, true)
-					return projExtraction(fields, vals, e)
-				})
+			h := heldExtraction{head: []V{S(q.ServerAddress), I(int(q.UnitID)), I(s), I(qq)}, noResp: perr != nil}
+			if perr == nil {
+				h.run(q, resp)
 			}
-			descs = append(descs, L(S(q.ServerAddress), I(int(q.UnitID)), I(s), I(qq), strict, lenient))
+			held = append(held, h)
+		}
+		// the values are looked at only now: every result was held across all later extractions
+		for _, h := range held {
+			descs = append(descs, vList(append(h.head, h.strict(fields), h.lenient(fields))))
 		}
 		return vOk(vList(descs))
 	})
@@ -336,6 +379,11 @@ func streamExtract(seed uint64, thorough bool) {
 		case 2:
 			kmode = 2
 		}
-		extractCase(r, target, fields, r.intn(3) == 0, uint64(r.intn(65536)), kmode, 0, 0)
+		ms := uint64(r.intn(65536))
+		if target >= 4 && r.intn(25) == 0 { // long text strings, several per request and per device
+			fields = genLongStrings(r, sc)
+			ms = textSeed(r, fields[0].ServerAddress, fields[0].UnitID)
+		}
+		extractCase(r, target, fields, r.intn(3) == 0, ms, kmode, 0, 0)
 	}
 }
